@@ -79,6 +79,27 @@ class EigAbs(SV):
 
 
 norm2 = z3.Function("norm2", Mat, z3.RealSort())  # spectral radius = 2-norm for symmetric matrices
+max_abs = z3.Function("max_abs_entry", Mat, z3.RealSort())  # max |C[i,j]|  (0 for an empty matrix)
+asym = z3.Function("max_asymmetry", Mat, z3.RealSort())  # max |C[i,j] - C[j,i]|
+RTOL_DEFAULT, ATOL_DEFAULT = z3.RealVal("1/100000"), z3.RealVal("1/100000000")
+
+
+class AbsMat(SV):
+    """np.abs(matrix): only its maximum is modelled."""
+
+    def __init__(self, mat):
+        self.mat = mat
+
+
+def entry_axioms(t):
+    """D-entry: 0 <= max|C - C^T| <= 2 max|C|."""
+    return z3.And(max_abs(t) >= 0, asym(t) >= 0, asym(t) <= 2 * max_abs(t))
+
+
+def allclose_T(t, rtol, atol):
+    """D-allclose for np.allclose(C, C.T, rtol, atol) = all |C_ij - C_ji| <= atol + rtol |C_ji| (C finite):
+    a fresh Boolean b with   max_asym <= atol  =>  b   and   b  =>  max_asym <= atol + rtol * max_abs."""
+    return (asym(t) <= atol, asym(t) <= atol + rtol * max_abs(t))
 
 
 def eig_axioms(t):
@@ -133,8 +154,17 @@ def install(M):
 
     def np_allclose(I, args, kw):
         a, b = args[0], args[1]
-        if isinstance(a, SMat) and isinstance(b, SMat) and z3.eq(b.term, mat_T(a.term)):
-            return wrap(is_sym_close(a.term))
+        if isinstance(a, SMat) and isinstance(b, SMat) and z3.eq(b.term, mat_T(a.term)) and len(args) == 2 and not (set(kw) - {"rtol", "atol"}):
+            rtol = to_real(kw["rtol"]) if "rtol" in kw else RTOL_DEFAULT
+            atol = to_real(kw["atol"]) if "atol" in kw else ATOL_DEFAULT
+            P = I.path
+            t = a.term
+            P.define(entry_axioms(t), "D-entry: 0 <= max|C - C^T| <= 2 max|C|")
+            suff, nec = allclose_T(t, rtol, atol)
+            res = z3.Const(P.names.fresh("allclose_T"), z3.BoolSort())
+            P.define(z3.And(z3.Implies(suff, res), z3.Implies(res, nec)), "D-allclose: np.allclose(C, C.T, rtol, atol) in terms of max|C - C^T| and max|C|")
+            P.ghost.setdefault("allclose_results", []).append((t, res))
+            return wrap(res)
         raise Unsupported("np.allclose on general arguments")
 
     def np_any(I, args, kw):
@@ -158,6 +188,8 @@ def install(M):
         v = args[0]
         if isinstance(v, EigVals):
             return EigAbs(v.mat)
+        if isinstance(v, SMat):
+            return AbsMat(v)
         if is_numeric(v):
             return I.models.m_abs(I, [v], {})
         raise Unsupported(f"np.abs({v!r})")
@@ -169,6 +201,10 @@ def install(M):
             I.path.define(eig_axioms(t), "D-eig: spectrum bounds (|lam_min| <= norm2, norm2 >= 0)")
             # `initial=0.0` only matters for an empty spectrum (0x0 matrix), where norm2 = 0 as well
             return SReal(norm2(t))
+        if isinstance(v, AbsMat):
+            # (`initial=0.0` only matters for an empty matrix, where max_abs_entry = 0 as well)
+            I.path.define(entry_axioms(v.mat.term), "D-entry: 0 <= max|C - C^T| <= 2 max|C|")
+            return SReal(max_abs(v.mat.term))
         raise Unsupported(f"np.max({v!r})")
 
     def np_array(I, args, kw):
